@@ -1,5 +1,6 @@
 import NfpmModel.Wire
 import NfpmModel.Spec.PlanSpec
+import NfpmModel.Spec.PayloadSpec
 /-
   Model driver: one request per line on stdin, one answer per line on stdout.
   Core-only so that it links as a `lean_exe`.
@@ -48,6 +49,49 @@ def handle (op : String) (args : List String) : Except String String :=
       pure (cfg, raw, O, res)) args
     let v := Spec.check O cfg raw res
     pure (if v.isEmpty then "holds" else "violated " ++ String.intercalate ";" (v.map (fun s => s.replace " " "_")))
+  | "members" => do
+    let (f, now, imt, plan) ← run1 (do
+      let f ← pFmt
+      let now ← pInt
+      let imt ← pInt
+      let plan ← pList pContentOut
+      pure (f, now, imt, plan)) args
+    pure (showMembers (members f now imt plan))
+  | "c01check" => do
+    let (f, plan, dec) ← run1 (do
+      let f ← pFmt
+      let plan ← pList pContentOut
+      let dec ← pList pMember
+      pure (f, plan, dec)) args
+    let v := Spec.checkPayload f plan dec
+    pure (if v.isEmpty then "holds" else "violated " ++ String.intercalate ";" (v.map (fun s => s.replace " " "_")))
+  | "conffiles" => do
+    let plan ← run1 (pList pContentOut) args
+    pure (hex (conffiles plan))
+  | "backup" => do
+    let plan ← run1 (pList pContentOut) args
+    pure (showBytesList (archBackup plan))
+  | "c08list" => do
+    let (f, plan, listed) ← run1 (do
+      let f ← pFmt
+      let plan ← pList pContentOut
+      let listed ← pList pBytes
+      pure (f, plan, listed)) args
+    let v := Spec.checkConfigList f plan listed ++ Spec.checkNoForeignTypes f plan
+    pure (if v.isEmpty then "holds" else "violated " ++ String.intercalate ";" v)
+  | "c08rpm" => do
+    let (plan, dec) ← run1 (do
+      let plan ← pList pContentOut
+      let dec ← pList pMember
+      pure (plan, dec)) args
+    let v := (Spec.checkRpmTyping plan dec).eraseDups
+    pure (if v.isEmpty then "holds" else "violated " ++ String.intercalate ";" v)
+  | "conflines" => do
+    let body ← run1 pBytes args
+    pure (showBytesList (Spec.conffilesLines body))
+  | "configpaths" => do
+    let plan ← run1 (pList pContentOut) args
+    pure (showBytesList (Spec.configPaths plan))
   | _ => .error s!"unknown op {op}"
 
 partial def loop (hin : IO.FS.Stream) (hout : IO.FS.Stream) : IO Unit := do
